@@ -38,6 +38,12 @@ def run(c, replay):
             nout = len([l for l in so.split("\n") if l])
             c.violation("sanitizer:allocator", dict(kind="memory-safety", ops=ops[:nout + 1], stderr=se[-2500:]), True)
             break
+    # ---- message queue: concurrent use, then shutdown with messages of both payload classes still pending in the list and the heap
+    okq, lgq, exeq = V.build_driver(ctx["sd"], "drv_queue_stress", objs)
+    rc, so, se = V.run([exeq, "2", "20000"], timeout=120)
+    nrun += 1
+    if rc != 0 or san(se):
+        c.violation("sanitizer:message-queue", dict(kind="memory-safety", how="harness/drv_queue_stress 2 20000", stderr=se[-2500:]), True)
     # ---- simulations: serial, parallel, several ranks, LP level, cooperatively scheduled (payloads > 32 bytes pending at shutdown, RootsimStop, statistics)
     progs, runs = C.campaign(c, ctx, r, 8 if c.tier == "quick" else 100, 0, c.tier, want_stats=True, extra_cfgs=[(2, 1, 0)])
     progs2, runs2 = C.campaign(c, ctx, r, 3 if c.tier == "quick" else 30, 0, c.tier, variants=("pred", "stop"), ranks_list=(2, 3), jobs=3)
